@@ -30,7 +30,9 @@ LEVEL_TEXT = ("Composition theorem (C05_composition, closed): for every program 
               "source of an assembled __all__) plus the generator's name discipline; each open finding has a refutation proved by computation on a "
               "witness that is replayed on the implementation (F3, F4, F5, F7, F8, F10, F12); F1, F2, F6, F9, F11 are repaired, their witnesses are "
               "regression cases and F6/F11 programs are now inside the theorem. The faithful model of the real traversal "
-              "(seen-sets, pending expansions, KeyError skips) is tied to the code by differential runs: model vs griffe.load vs a fresh interpreter.")
+              "(seen-sets, pending expansions, KeyError skips) is tied to the code by differential runs (model vs griffe.load vs a fresh interpreter) and by "
+              "a translator that regenerates the is_wildcard_exposed ladder, the line-number comparison, the skipped `from . import b` test and the "
+              "__all__ method names from the source on every run; the model is proved equal to the regenerated definitions.")
 LEVEL_NOTE = ("Trusted: Coq kernel, extraction, the package->model abstraction in this file, CPython as authority. Real traversal: proved that "
               "expand_exports (for every table and fuel, unconditionally) and expand_wildcards (when every wildcard import names a module of the "
               "table) perform exactly the schedule's per-module steps in the order in which they complete the modules, so griffe_load is a "
@@ -45,7 +47,7 @@ LEVEL_NOTE = ("Trusted: Coq kernel, extraction, the package->model abstraction i
               "F3 leaked an `a/b/*` pseudo-member skip (C); names whose alias chain crosses a replaced alias member, and entries whose special-case "
               "comparison crosses one, accept either outcome (F7).")
 MODEL = ("Model.C05_wf", "run_C05w")
-COQ_TARGETS = ["Proofs/C05_imports.vo", "Proofs/C05_main.vo", "Proofs/C05_realw.vo"]
+COQ_TARGETS = ["Proofs/C05_imports.vo", "Proofs/C05_main.vo", "Proofs/C05_realw.vo", "Proofs/C05_ladder.vo"]
 RULE = ("hand-written packages (one per rule of the anchored code) and the finding witnesses; seeded random packages in three streams: flat "
         "(package __init__ + 1-4 modules), rich (1-3 modules, a sub-package with 1-2 modules, optionally a nested sub-package) and cyclic (rich or "
         "flat plus 1-2 imports pointing forward in the order; model-vs-implementation only). A random dependency order (each __init__ before, after "
@@ -69,6 +71,15 @@ ASSUMPTIONS = ["acyclic = no module's namespace is read while it is being initia
                "name): decidable, evaluated on every package",
                "every defined object is a class or a function, so its identity is recoverable from __module__/__qualname__"]
 ALLOWED_AXIOMS = []
+
+TRANSLATOR_NAME = "harness/translate/c05_ladder.py"
+
+
+def translate(ctx):
+    """(T) regenerate coq/Gen/C05_ladder.v (is_wildcard_exposed ladder, line rule, skipped bare import, __all__ methods) from the source."""
+    from harness.translate import c05_ladder
+    c05_ladder.translate(ctx)
+
 
 PY = sys.executable
 REPO_SRC = str(Path(os.environ.get("GRIFFE_REPO", "/repo")) / "src")
